@@ -467,6 +467,10 @@ fn fault_plan(thorough: bool) -> Plan {
             continue;
         }
         cases.push(json!({"mode": "c14", "hist": h, "target": t, "bound": b}));
+        // the same faults with every sync-pipeline task held back until it is joined
+        if b != 1 || thorough {
+            cases.push(json!({"mode": "c14", "hist": h, "target": t, "bound": b, "lazy": true}));
+        }
     }
     if thorough {
         for (h, t, b) in crash_histories(true) {
